@@ -53,6 +53,38 @@ class Rule(object):
         return cond
 
 
+class SubsetReport(object):
+    """A view of a Report that keeps only the listed rules of another property's rule file: rules outside `only` are created detached (their code
+    runs, their obligations are dropped).  Used when a property runs the rules a sibling property has for a file both are anchored in."""
+
+    def __init__(self, report, only):
+        self._report = report
+        self._only = set(only)
+        self.seen = set()
+
+    def rule(self, rid, text, floor=1):
+        if rid in self._only:
+            self.seen.add(rid)
+            return self._report.rule(rid, text, floor)
+        return Rule(self._report, rid, text, floor)        # detached: never reaches the evidence or the verdict
+
+    def __getattr__(self, name):
+        return getattr(self._report, name)
+
+
+def run_subset(mod, ctx, only):
+    """run `mod.run` (another property's rule file) against ctx.prog, keeping only the rules in `only`."""
+    class _Ctx(object):
+        pass
+    c2 = _Ctx()
+    c2.__dict__.update(ctx.__dict__)
+    c2.report = SubsetReport(ctx.report, only)
+    mod.run(c2)
+    missing = set(only) - c2.report.seen
+    if missing:
+        raise AnalysisBroken("shared rules %s were not produced by %s" % (sorted(missing), mod.__name__))
+
+
 class Report(object):
     def __init__(self, prop, tier, explanation="", not_decided=""):
         self.prop = prop
